@@ -51,6 +51,11 @@ pub enum Op {
     Misuse { tick: u32, peer: u8, kind: u8, arg: u8 },
     /// game of `peer` really diverges from `frame` on (C09 detection half)
     Corrupt { peer: u8, frame: i32 },
+    /// every packet sent on the directed link during the next `len_ms` arrives `extra_ms` late
+    Slow { tick: u32, from: u8, to: u8, len_ms: u32, extra_ms: u32 },
+    /// the process of `peer` is restarted on the same address (new session object, new magic, game at frame
+    /// 0); only carried out while that peer has not advanced a frame yet (i.e. during the handshake)
+    Restart { tick: u32, peer: u8 },
 }
 
 impl Op {
@@ -65,6 +70,8 @@ impl Op {
             | Op::Heal { tick }
             | Op::Profile { tick, .. }
             | Op::Forge { tick, .. }
+            | Op::Slow { tick, .. }
+            | Op::Restart { tick, .. }
             | Op::Misuse { tick, .. } => *tick,
             Op::Corrupt { .. } => 0,
         }
@@ -115,6 +122,9 @@ pub struct Scenario {
     /// the controller per tick); the first submission that was registered is the true input of the frame
     #[serde(default)]
     pub resubmit_varies: bool,
+    /// every local input is registered twice per tick: a decoy first, then the real value (the last one counts)
+    #[serde(default)]
+    pub double_submit: bool,
 }
 
 impl Scenario {
@@ -157,6 +167,7 @@ impl Scenario {
             poll_only: false,
             own_snapshots: false,
             resubmit_varies: false,
+            double_submit: false,
         }
     }
 }
